@@ -363,6 +363,10 @@ pub struct TxReceiptED {
     pub block_number: U64ED,
     pub transaction_hash: B256ED,
     pub transaction_index: U64ED,
+    pub from: AddressED,
+    pub to: Option<AddressED>,
+    pub contract_address: Option<AddressED>,
+    pub cumulative_gas_used: U64ED,
     pub rest: ReceiptRest,
 }
 #[verifier::external_body]
@@ -392,6 +396,11 @@ pub struct TxED {
     pub block_hash: B256ED,
     pub block_number: Option<U64ED>,
     pub transaction_index: Option<U64ED>,
+    pub nonce: U64ED,
+    pub from: AddressED,
+    pub to: Option<AddressED>,
+    pub gas: U64ED,
+    pub inscription_id: Option<String>,
     pub rest: TxRest,
 }
 #[verifier::external_body]
@@ -525,20 +534,31 @@ pub fn vec_any_opt_b256<F: Fn(&Option<B256>) -> bool>(v: &Vec<Option<B256>>, f: 
         !r ==> forall|i: int| 0 <= i < v@.len() ==> call_ensures(f, (&#[trigger] v@[i],), false),
 { v.iter().any(|x| f(x)) }
 
-// N29: constructors whose other arguments are revm / alloy values: only the index fields the kernel reads are kept
+// N29: constructors reduced to the arguments that are plain values (what they store is proved in unit codec: every argument
+// lands in the field of the same name); the arguments computed from the revm execution output (success flag, logs, gas used)
+// and the byte payloads (input data, signature) are dropped.  `first_log_index_of` = the start index handed to LogED::new_vec.
+pub uninterp spec fn first_log_index_of(r: TxReceiptED) -> U64ED;
 impl TxReceiptED {
     #[verifier::external_body]
-    pub fn new_indexed(block_hash: B256ED, block_number: U64ED, transaction_hash: B256ED, transaction_index: U64ED) -> (r: Result<TxReceiptED, VErr>)
+    pub fn new_indexed(block_hash: B256ED, block_number: U64ED, contract_address: Option<AddressED>, from: AddressED, to: Option<AddressED>,
+                       transaction_hash: B256ED, transaction_index: U64ED, cumulative_gas_used: U64ED, start_log_index: U64ED) -> (r: Result<TxReceiptED, VErr>)
         ensures r is Ok ==> (r->Ok_0).block_hash == block_hash && (r->Ok_0).block_number == block_number
-            && (r->Ok_0).transaction_hash == transaction_hash && (r->Ok_0).transaction_index == transaction_index,
+            && (r->Ok_0).transaction_hash == transaction_hash && (r->Ok_0).transaction_index == transaction_index
+            && (r->Ok_0).contract_address == contract_address && (r->Ok_0).from == from && (r->Ok_0).to == to
+            && (r->Ok_0).cumulative_gas_used == cumulative_gas_used && first_log_index_of(r->Ok_0) == start_log_index,
     { unimplemented!() }
 }
 impl TxED {
     #[verifier::external_body]
-    pub fn new_indexed(hash: B256ED, block_hash: B256ED, block_number: U64ED, transaction_index: U64ED) -> (r: TxED)
-        ensures r.hash == hash && r.block_hash == block_hash && r.block_number == Some(block_number) && r.transaction_index == Some(transaction_index),
+    pub fn new_indexed(hash: B256ED, nonce: U64ED, block_hash: B256ED, block_number: U64ED, transaction_index: U64ED, from: AddressED, to: Option<AddressED>, gas: U64ED, inscription_id: String) -> (r: TxED)
+        ensures r.hash == hash && r.block_hash == block_hash && r.block_number == Some(block_number) && r.transaction_index == Some(transaction_index)
+            && r.nonce == nonce && r.from == from && r.to == to && r.gas == gas && r.inscription_id == Some(inscription_id),
     { unimplemented!() }
 }
+// `opt.map(AddressED::new)`
+pub fn opt_addressed(o: Option<Address>) -> (r: Option<AddressED>)
+    ensures r == (match o { Some(a) => Some(addressed_of(a)), None => None::<AddressED> }),
+{ match o { Some(a) => Some(a.into()), None => None } }
 
 // alloy U64 (the nonce bounds of the pending-pool range scan)
 #[verifier::external_body]
